@@ -1492,6 +1492,10 @@ static json pairFlags(const Node &nd, const ob::State *a, const ob::State *b)
         f.push_back("farsign");
     return f;
 }
+// The airplane spaces have no bound on their distances (VanaStateSpace doubles its turning radius up to 2^32 times
+// while it looks for a feasible path): there, values beyond the 32-bit fixed-point range are logged as the largest
+// value that fits (2000 units).  Sound for the laws applied to them: above the extent, above any straight line.
+static bool SATURATE = false;
 static long long fx(double d, bool &nonfinite)
 {
     if (!std::isfinite(d))
@@ -1499,6 +1503,8 @@ static long long fx(double d, bool &nonfinite)
         nonfinite = true;
         return 0;
     }
+    if (SATURATE && std::fabs(d) * 1e6 > 2.0e9)
+        return d > 0 ? 2000000000LL : -2000000000LL;
     return vt::tlcInt(std::llround(d * 1e6));
 }
 
@@ -1919,6 +1925,8 @@ static long long fx3(double d, bool &nonfinite)   // 1e-3 units (chords against 
         nonfinite = true;
         return 0;
     }
+    if (SATURATE && std::fabs(d) * 1e3 > 2.0e6)
+        return d > 0 ? 2000000LL : -2000000LL;   // (x 64 x 16 stays below 2^31)
     return vt::tlcInt(std::llround(d * 1e3));
 }
 
@@ -2070,6 +2078,7 @@ static int record(const std::string &out, long n, const std::string &filter, boo
         Airplane ap;
         if (nd.fam == "airplane")
             ap = airplane(nd);
+        SATURATE = nd.fam == "airplane";
         for (auto &p : pr)
         {
             for (long it = 0; it < (p.once ? 1 : n); ++it)
@@ -2296,18 +2305,40 @@ static int record(const std::string &out, long n, const std::string &filter, boo
                         nd.sp->copyState(prev(), pt());
                         nd.sp->copyState(viaP(), pt());
                         sameP.push_back(!ap.viaPath(a(), b(), t, viaP()) || sameBits(nd, viaP(), pt()) ? 1 : 0);
+                    }
+                    // pitch and heading at every 64th of the path: a stretch flown beyond the pitch range (a loop in the
+                    // vertical plane is at least (2 pi - range) x the vertical radius long) holds several of these, so
+                    // how far beyond is measured where it is large
+                    for (int k = 0; k <= 64; ++k)
+                    {
+                        nd.sp->interpolate(a(), b(), k / 64.0, pt());
                         double ex = 0;
                         if (ap.hasPitch)
                             ex = std::max({0.0, pos3(pt())[3] - ap.pitchHi, ap.pitchLo - pos3(pt())[3]});
+                        if (!std::isfinite(ex))
+                        {
+                            nf = true;   // a non-finite pitch: the event is reported as not finite
+                            ex = 0;
+                        }
                         pex.push_back(vt::tlcInt(std::llround(std::min(ex, 2.0) * 1e9)));
                         // the heading on its own (the position may leave its box, as planar Dubins curves do)
                         yin.push_back(nd.sub[1].sp->satisfiesBounds(pt()->as<ob::CompoundState>()->components[1]) ? 1 : 0);
                     }
+                    // a path of more than 1000 units (see SATURATE): the products of the no-jumps law would leave the 32-bit
+                    // range; the law is not applied to it
+                    const bool big = std::isfinite(dab) && dab > 1000.0;
+                    if (big)
+                    {
+                        ++facts["airplane_interp_path_over_1000_units"];
+                        for (auto &c3 : chord)
+                            c3 = 0;
+                    }
                     ev["nopath"] = !has;
+                    ev["big"] = big;
                     ev["plen"] = fx(has ? plen : dab, nf);
                     ev["cks"] = cks;
                     ev["chord3"] = chord;
-                    ev["dab3"] = fx3(dab, nf);
+                    ev["dab3"] = big ? 0 : fx3(dab, nf);
                     ev["sameP"] = sameP;
                     ev["pex"] = pex;
                     ev["yin"] = yin;
